@@ -398,7 +398,7 @@ def stubborn_servers_run(ctx, bins, peer, max_servers, stats):
         ctx.add_violation("c05/too-many-servers/stubborn", "%d server processes were observed alive at the same moment with --max-servers %d" % (peak["n"], max_servers), w)
 
 
-def client_fault_run(ctx, bins, peer, rid, max_servers, after_answers, stats):
+def client_fault_run(ctx, bins, peer, rid, max_servers, after_answers, stats, prefix="c05"):
     """The client under test exits in the middle of the run while several server batches are in flight and the
     servers need different times to shut down (all well inside the grace period). The run is lost, but it still has
     to stop - and wait for - every server it started before it ends. Decided on the event log (CLOCK_MONOTONIC,
@@ -463,6 +463,16 @@ def client_fault_run(ctx, bins, peer, rid, max_servers, after_answers, stats):
         w["server_exits_after_runner_exit_ms"] = [round(x, 1) for x in late]
         w["never_asked_to_stop"] = never_asked
         ctx.add_violation("c05/server-outlives-the-run/client-fault", "the runner ended while %d of the %d server processes it had started were still alive (%d logged their exit after it, %d were never asked to stop)" % (max(len(alive_after), len(late), len(never_asked)), len(ready), len(late), len(never_asked)), w)
+    # the printed totals still account for every selected case once: what ran plus what could not be run
+    out = e2e.parse_output(text)
+    if out["total"] is None:
+        ctx.add_violation(prefix + "/client-fault/no-summary", "the run printed no totals", w)
+    else:
+        accounted = (out["passed"] or 0) + (out["nfailed"] or 0) + out["could_not_run"] + out["expected_failures"]
+        stats["client_fault_totals_checked"] = stats.get("client_fault_totals_checked", 0) + 1
+        if accounted != len(sel):
+            w["selected"] = len(sel)
+            ctx.add_violation(prefix + "/client-fault/totals", "the client died with batches still to be started: %d cases were selected, the summary accounts for %d (total %s, passed %s, failed %s, could not be run %s)" % (len(sel), accounted, out["total"], out["passed"], out["nfailed"], out["could_not_run"]), w)
     if rc == 0:
         ctx.add_violation("c05/client-fault-run-succeeds", "the client exited with status 1 in the middle of the run, the runner exited with 0", w)
 
